@@ -973,7 +973,7 @@ func c15V1Expressible(g *c15Graph) bool {
 
 func runC15(c *Ctx) {
 	c15Static(c)
-	nGraphs := c.N(5000, 500000)
+	nGraphs := c.N(5000, 200000) // thorough: ~50 KB of permanent type data per graph (reflect + arshaler caches) bounds the count
 	workers := 16
 	per := (nGraphs + workers - 1) / workers
 	var wg sync.WaitGroup
